@@ -20,4 +20,4 @@ if __name__ == "__main__":
         for o in obs:
             if o.status != "discharged" or "-v" in sys.argv:
                 print(f"  {o.status:10s} {o.time:6.2f} {o.backend} {o.name}")
-        print(name, sum(o.status == "discharged" for o in obs), "/", len(obs))
+        print(name, sum(o.status == "discharged" for o in obs), "/", len(obs), "undecided:", getattr(g, "undecided", []))
